@@ -6,15 +6,19 @@ name = sys.argv[1]
 prop, m = name.split("_")[0], name.split("_")[1]
 src = f"/tmp/seed/{prop}/out"
 res = json.load(open(f"/tmp/mut/results/{name}.json"))
+d0 = os.path.join(os.path.dirname(os.path.abspath(__file__)), "..", "seeded", name, "meta.json")
+if "suite_not_passing" not in res and os.path.exists(d0):   # re-run with --skip-suite: the suite result of the confirmed run stands
+  res["suite_not_passing"] = json.load(open(d0))["confirmed"]["baseline_suite_stable_tests_no_longer_passing"]
 valid = res.get("demo_clean_rc") == 0 and res.get("demo_mutant_rc") not in (0, None) and res.get("suite_not_passing") == []
 if not valid:
   sys.exit(f"{name}: not confirmed (demo/suite), not filed: {res}")
 d = os.path.join(os.path.dirname(os.path.abspath(__file__)), "..", "seeded", name)
 os.makedirs(d, exist_ok=True)
-shutil.copy(f"{src}/{m}.diff", f"{d}/patch.diff")
-shutil.copy(f"{src}/{m}_demo.py", f"{d}/demo.py")
-notes = open(f"{src}/{m}.md").read() if os.path.exists(f"{src}/{m}.md") else ""
-open(f"{d}/notes.md", "w").write(notes)
+if not os.path.exists(f"{d}/patch.diff"):
+  shutil.copy(f"{src}/{m}.diff", f"{d}/patch.diff")
+  shutil.copy(f"{src}/{m}_demo.py", f"{d}/demo.py")
+  open(f"{d}/notes.md", "w").write(open(f"{src}/{m}.md").read() if os.path.exists(f"{src}/{m}.md") else "")
+notes = open(f"{d}/notes.md").read()
 files = re.findall(r"^\+\+\+ b/(\S+)", open(f"{d}/patch.diff").read(), re.M)
 head = subprocess.run(["git", "-C", "/repo", "rev-parse", "--short", "HEAD"], capture_output=True, text=True).stdout.strip()
 vhead = subprocess.run(["git", "-C", "/verif", "rev-parse", "--short", "HEAD"], capture_output=True, text=True).stdout.strip()
